@@ -214,14 +214,14 @@ class Run:
             zs.append({"gver": int(s._global_ver or 0), "sver": int(s._sched_ver or 0), "full": fv, "pset": ps})
         return {"lock": 0 if lock is None else int(lock, 16), "zs": zs}
 
-    def log(self, k: str, z: int = 0, a: int = 0, b: int = 0, c: int = 0, s: str = "") -> None:
+    def log(self, k: str, z: int = 0, a: int = 0, b: int = 0, c: int = 0, s: str = "", q: str = "") -> None:
         if k == "age":
             self.fresh = False
         elif k == "heard6":
             self.fresh = True
         if k == "xq":
             self._last_xq[z] = s
-        e = {"k": k, "z": z, "a": a, "b": b, "c": c, "s": s, "p": self.project(),
+        e = {"k": k, "z": z, "a": a, "b": b, "c": c, "s": s, "q": q, "p": self.project(),
              "t": int(round(self.loop.time() * 1000))}
         self.ev.append(e)
         if self.verbose:
@@ -347,17 +347,17 @@ class Run:
         except asyncio.CancelledError:
             raise
         except Exception:
-            self.log("xr", z=x.z, s="fail")
+            self.log("xr", z=x.z, s="fail", q=kind)
             raise
         x.n = n
         if kind == "ver":
-            self.log("xr", z=x.z, a=int(pkt.payload[4:8], 16), s="ok")
+            self.log("xr", z=x.z, a=int(pkt.payload[4:8], 16), s="ok", q=kind)
         elif kind == "frag":
             pay = pkt.payload
             self.log("xr", z=x.z, a=self.book.ver_of_frag(x.z, pay[14:]), b=int(pay[10:12], 16),
-                     c=int(pay[12:14], 16), s="ok")
+                     c=int(pay[12:14], 16), s="ok", q=kind)
         else:
-            self.log("xr", z=x.z, s="ok")
+            self.log("xr", z=x.z, s="ok", q=kind)
         key = (x.tid, x.n)
         self.loop.call_soon(self._fallback_fire, key)
         return pkt
